@@ -114,8 +114,10 @@ def findHeader : List Bytes → Option ((Int × Int × Int) × List Bytes)
     | some h => some (h, ls)
     | none => findHeader ls
 
-def decodeNames (ls : List Bytes) : Option (List Bytes) :=
-  if ls.all (fun l => utf8Valid (strip l)) then some (ls.map strip) else none
+/-- `name.strip().decode('utf-8', 'replace')`: decoding cannot fail (the replacement of invalid
+sequences by U+FFFD is applied by the harness when it compares names; names that are valid UTF-8 —
+everything a child with a UTF-8 stderr writes — are recorded byte for byte) -/
+def decodeNames (ls : List Bytes) : Option (List Bytes) := some (ls.map strip)
 
 /-- the parser on complete lines: a report is used only when the header and all announced names
 are present -/
